@@ -81,6 +81,8 @@ check(
               unit("codec", "^TestC01(LargeDictionaries|BigStrings)", variant="purego", checks=600, timeout=6000, shards=2),
               unit("codec", "^TestC01RawCopy", checks=40000, timeout=6000, shards=4),
               unit("codec", "^TestC01RawCopy", variant="purego", checks=40000, timeout=6000, shards=2),
+              unit("codec", "^TestC01AliasedColumns", checks=40000, timeout=6000, shards=2),
+              unit("codec", "^TestC01AliasedColumns", variant="purego", checks=20000, timeout=6000, shards=1),
               unit("codec", "^TestEveryKindC01", checks=1500, timeout=6000, shards=2),
               unit("codec", "^TestEveryKindC01", variant="purego", checks=1500, timeout=6000, shards=2)],
     manifest=dict(
@@ -601,15 +603,15 @@ ADDED = {
     "C01": "Also: every one of the 726 kinds once per pass through the whole oracle (TestEveryKindC01), encoding into a reused "
            "buffer whose spare capacity holds an earlier packet, copy-through of inferred columns (decode into ColAuto targets, "
            "encode them again through both write paths), raw copy through ColRaw / ColLowCardinalityRaw, accessor agreement "
-           "(iterators, Go-map Append, Nullable helpers), blocks of 4095-10000 rows, strings on both length-prefix boundaries. An Enum16 member name ending in an escaped backslash (all shapes, tuples).",
+           "(iterators, Go-map Append, Nullable helpers), blocks of 4095-10000 rows, strings on both length-prefix boundaries. An Enum16 member name ending in an escaped backslash (all shapes, tuples). Unit TestC01AliasedColumns (columns announced under another type name through proto.Alias, both directions).",
     "C02": "Also: streamed input (OnInput rounds, rows with io.EOF, no rows at all), blocks of 4 KiB-1.3 MiB, strings on the "
            "length-prefix boundaries (127/128, 16383/16384) and bodies to 200 KB, the same setting key on both levels, an earlier "
            "exchange (select / exception / insert / ping) on the same client. A quarter of the cases run with instrumentation on and a recording SDK tracer (the wire carries the recorded Do span).",
     "C03": "Also: data blocks with 4-256 KiB values, a server pausing inside a packet for longer than the read timeout, an "
-           "earlier exchange on the same client, a context with a far deadline. Exception texts of 131071-230000 bytes. Progress packets without a delta, a quarter of the clients instrumented, LowCardinality(String) columns of 257/300 distinct values per block; which error a call with a failed callback reports is counted, not asserted.",
+           "earlier exchange on the same client, a context with a far deadline. Exception texts of 131071-230000 bytes. Progress packets without a delta, a quarter of the clients instrumented, LowCardinality(String) columns of 257/300 distinct values per block; which error a call with a failed callback reports is counted, not asserted. Unit TestC03ExceptionInsteadOfColumnInfo (20000 INSERTs answered by an exception instead of the column description; the schedule is the runtime's).",
     "C04": "Also: fault kinds reset (reads and all later writes fail), bad-input (the encoder rejects the caller's columns after "
            "the query went out), callback errors that wrap a *ch.Exception; 0-2 earlier exception queries on the same client; "
-           "a Ping with a cancelled context before the follow-up. Streaming callbacks that wait on their context (no further batch once the failure is on its way); exception packets cut at any byte of a three-element chain. Gated scenarios at lower revisions on either side; unit TestC04ChattyServerSenderFailure (the sender fails while the server streams packets faster than the read timeout).",
+           "a Ping with a cancelled context before the follow-up. Streaming callbacks that wait on their context (no further batch once the failure is on its way); exception packets cut at any byte of a three-element chain. Gated scenarios at lower revisions on either side; unit TestC04ChattyServerSenderFailure (the sender fails while the server streams packets faster than the read timeout). Silent servers and clients without a read timeout in the chatty-server unit.",
     "C05": "Also: blocks spread over 2-4 frames (and empty frames in between) with a later frame altered, decoded through "
            "proto.Reader - the error must still carry the CorruptedDataErr; ZSTD frames whose inner content size exceeds the limit. Client unit TestC05ClientProducedFrames: compressed connections with large incompressible values, every frame written must verify and decompress to the block encoded.",
     "C06": "Also: pair mutations (two structural fields near the caps at once), decoding into reused targets, hostile type strings "
@@ -622,7 +624,7 @@ ADDED = {
     "C09": "Also: true in-place overwrite, steering to Preparable kinds, blocks of 4 KiB-1.3 MiB mostly as the tail sent with "
            "io.EOF, an earlier exchange on the same client. Rounds of exactly 127-129 and 16383-16385 rows.",
     "C10": "Also: 0-2 earlier exception queries on the same client, callbacks that fail with their own error once the context is "
-           "cancelled; a nil result after a cancellation in the middle of the exchange is a violation. Cancellation inside the dialer (handshake unit). A client returned over a connection the library closed is a violation; cancellation together with the release of a parked operation; transports whose Close reports an error; lower revisions on either side; unit TestC10TLSDialCancellation (real loopback, silent peer).",
+           "cancelled; a nil result after a cancellation in the middle of the exchange is a violation. Cancellation inside the dialer (handshake unit). A client returned over a connection the library closed is a violation; cancellation together with the release of a parked operation; transports whose Close reports an error; lower revisions on either side; unit TestC10TLSDialCancellation (real loopback, silent peer). Units TestC10SilentInsidePacket (the server goes silent inside a packet body) and TestC10PeerStopsReading (writes block; simnet serialises writes like a socket).",
     "C11": "Also: RST answers (reads and later writes fail), connections whose Close takes 2-7 ms of virtual time or returns an "
            "error, construction unit (New/Dial with MinConns against a dialer refusing the k-th connection). Exception chains cut inside the nested element; MinConns up to MaxConns+2 in the construction unit.",
     "C12": "Also: queries with settings, parameters and unnamed external tables, pool-wide Options.Settings with spare capacity, "
@@ -633,14 +635,14 @@ ADDED = {
            "catalog kind once per pass (TestEveryKindC14), blocks of 4095-10000 rows. Alphabet of 9 letters incl. Reset and ChainWrite from inside a ChainBuffer callback. Unit TestC14HugeValuePaths (values of a mebibyte and more next to short ones).",
     "C15": "Also: WriteColumn through a writer over a pre-filled buffer, DecodeColumn from a reader that served reads before (zero "
            "rows too), one bad Bool byte at any position, every dual codec at 4097 / 8193 / 10000 rows. Encode into a zero-capacity buffer then reset and refill the column; decode behind the decompressor with a following frame.",
-    "C16": "Also: Enum and DateTime64 re-inference machines, in-place overwrite steps, block-level decode actions incl. zero rows. TestC16RawInputReuse (caller-built ColLowCardinalityRaw over several blocks); bulk appends from one reused, cleared scratch slice. Values of a mebibyte and more in one history in 25; enum definitions switching base with equal members; the raw LowCardinality unit alternates decoding and rebuilding and switches key widths.",
+    "C16": "Also: Enum and DateTime64 re-inference machines, in-place overwrite steps, block-level decode actions incl. zero rows. TestC16RawInputReuse (caller-built ColLowCardinalityRaw over several blocks); bulk appends from one reused, cleared scratch slice. Values of a mebibyte and more in one history in 25; enum definitions switching base with equal members; the raw LowCardinality unit alternates decoding and rebuilding and switches key widths. Unit TestC16AutoInputReinfer (a ColAuto holding rows is told an equivalent spelling of its type).",
     "C17": "Also: zero-row schema blocks (header + column descriptors, also inside a compressed frame), strings on both "
            "length-prefix boundaries and longer than the reader's 128 KiB buffer. Setting/parameter lists of 255-16385 entries; schema blocks into a reused ColInfoInput.",
     "C18": "Also: classes auto-targets-enforced (Results.Auto() targets held to count, names and types on later blocks), "
            "autoresult-reinferred (AutoResult targets reused across blocks of changing types), map-of-two-inferables, generated "
-           "enum definitions (blanks in names), Enum16/Int16 in both directions; every decode must consume the whole block. Classes rows-without-columns and array-datetime-zone; schema headers into ColInfoInput. Enum base switch on a reused target; class names-differ-by-case.",
+           "enum definitions (blanks in names), Enum16/Int16 in both directions; every decode must consume the whole block. Classes rows-without-columns and array-datetime-zone; schema headers into ColInfoInput. Enum base switch on a reused target; class names-differ-by-case. Nullable targets created with another precision (right values or an error); class single-result-column (known finding).",
     "C19": "Also: soundness of 12 typed inferable target shapes (the reported type carries every requested parameter), several "
-           "blanks or a tab after commas, token-soup parameter lists. A second block through the same inferred column.",
+           "blanks or a tab after commas, token-soup parameter lists. A second block through the same inferred column. Unit TestC19DeepNesting (300000 levels under a 64 MiB stack limit).",
     "C20": "Also: interval spans over the whole 1900-2299 range and five daylight-saving zones (calendar-day oracle), Date / "
            "Date32 / DateTime columns filled one by one, in bulk and as Array rows from batches in mixed zones, special IPv6 "
            "blocks, Precision helpers.",
